@@ -94,6 +94,12 @@ CLAIMS = {
         note=LEAN_NOTE + "HashSet/HashMap iteration orders abstracted (compared as multisets / at quiescent points)",
         technique="Lean 4 proof (invariant over histories; negation witness for the join race) + exhaustive history x join-point correspondence",
     ),
+    "C15": dict(
+        engine="world",
+        text="Lean 4: abstract select!-loop model with the choice among ready sides as a free parameter — for EVERY interleaving of arrivals and EVERY choice sequence: sent-on-the-other-side ++ still-queued = everything that arrived, per direction (verbatim, once, in order), capture gets one copy per forwarded message, the losing side's message stays queued; chain clause via C07_chain. Tie: the real proxy(ROUTER, DEALER, capture PUSH/PUB/none) future stepped one poll at a time over scripted clients/workers/sink, exhaustive 3-event arrival patterns incl. both sides ready in one poll, 1..2 clients x 1..2 workers x payload shapes, seeded schedules; the World model (proxyPoll) predicts every wire; oracle: forwarded = received per direction, per-source order, capture copies, replies reach the client named in their envelope.",
+        note=LEAN_NOTE + "futures::select! as a free choice among ready branches; schedules where a send blocks while both sides are ready are not compared",
+        technique="Lean 4 proof (invariant for all choice sequences) + one-poll-at-a-time correspondence of the real proxy future",
+    ),
     "C16": dict(
         engine="world",
         text="Lean 4 on the World model's peer_disconnected (as coded per backend) and fair-queue poll: forgotten (no table entry a later send consults), isolated (no other peer's entry changes), write half released; and the NEGATIONS for the pairs where the code is wrong, as general theorems: the fair-queue poll never touches the peer table, so an orderly EOF (consumed inside the queue) leaves the departed peer's write half registered; a failed write in REQ/ROUTER/REP send keeps the peer. Those (type, event) pairs are enumerated as known findings with witnesses; any other pair failing is a violation. PARTIAL: descriptor release observed via the pipe halves' Drop flags, not modelled. Tie: 9 socket types x every cut position of the victim's stream (each handshake stage, header, 8-byte length, body, between frames, between messages) x {EOF, read error, write error, protocol error} with bystanders; recv error count / no spin, late sends, halves.",
@@ -152,7 +158,7 @@ def main():
             {"name": "tables", "path": "harness/src/tables.rs -> lean/ZmqVerif/Gen/Tables.lean", "serves_properties": ["C01", "C03", "C04"], "kind_free_text": "finite tables regenerated from the real code's behaviour on every run; theorems re-proved over them by decide"},
             {"name": "codec", "path": "harness/src/codec.rs + lean/Driver/Codec.lean", "serves_properties": ["C01", "C02", "C03"], "kind_free_text": "real ZmqCodec vs the Lean decoder/encoder model over a line protocol; hostile mode with counting allocator and small-stack thread"},
             {"name": "fq", "path": "harness/src/fq.rs + lean/Driver/Fq.lean", "serves_properties": ["C05", "C06"], "kind_free_text": "real FairQueue (via __verif::FairQueueProbe) over scripted streams with window actions and a counting receiver waker vs the Lean micro-step model, exact schedule replay"},
-            {"name": "world", "path": "harness/src/world.rs + harness/src/pipe.rs + lean/Driver/World.lean (Model/World.lean)", "serves_properties": ["C04", "C07", "C08", "C09", "C10", "C11", "C12", "C13", "C14", "C16", "C17"], "kind_free_text": "any number of REAL sockets + scripted in-memory pipes attached through the real handshake + user futures polled one poll at a time; the Lean World model replays the same schedule and must predict every line"},
+            {"name": "world", "path": "harness/src/world.rs + harness/src/pipe.rs + lean/Driver/World.lean (Model/World.lean)", "serves_properties": ["C04", "C07", "C08", "C09", "C10", "C11", "C12", "C13", "C14", "C15", "C16", "C17"], "kind_free_text": "any number of REAL sockets + scripted in-memory pipes attached through the real handshake + user futures polled one poll at a time; the Lean World model replays the same schedule and must predict every line"},
             {"name": "endpoint", "path": "harness/src/endpoint.rs + lean/Driver/Endpoint.lean", "serves_properties": ["C19"], "kind_free_text": "real Endpoint::from_str/Display and std::net vs the Lean endpoint and IP text models"},
             {"name": "spec", "path": "lean/Driver/Spec.lean", "serves_properties": ["C01"], "kind_free_text": "Lean Spec predicates (strict RFC-23 grammar) evaluated on bytes the implementation produced"},
         ],
